@@ -66,9 +66,9 @@ def gen_polyco(rng):
     n = rng.choice([1, 1, 2, 3, 5, 8, 12, 40 if rng.random() < 0.1 else 4])
     span = rng.choice([5, 15, 30, 60, 90, 120, 360])
     f0v = rng.choice([0.1, 1.4, 29.6, 641.928232294317, 173.7, 716.3, 999.9])
-    while f0v * span * 30 > 2e6:               # keep F0 * span/2 <= 2e6 cycles (float64 Horner error below 1e-8)
+    while f0v * span * 30 > 1e6:               # keep F0 * span/2 <= 2e6 cycles (float64 Horner error below 1e-8)
         span = max(5, span // 2) if span > 5 else 5
-        if span == 5 and f0v * span * 30 > 2e6:
+        if span == 5 and f0v * span * 30 > 1e6:
             f0v /= 2
     f0s = f'{f0v:.12f}'
     ncoeff = rng.choice([1, 2, 4, 5, 7, 8, 10, 11, 12, 13, 14, 15, 3, 12])
@@ -93,7 +93,13 @@ def gen_polyco(rng):
         rphase_str = f'{rint}.{rng.randint(0, 999999):06d}'
         coeffs = []
         for i in range(ncoeff):
-            mag = [-7, 0, -4, -8, -10, -13, -15, -16, -19, -20, -23, -23, -26, -28, -30][i] + rng.choice([0, 0, 1, -1])
+            if i == 0:
+                mag = -7 + rng.choice([0, 0, 1, -1])
+            else:
+                # keep the rotation frequency positive over the span (time_at needs a monotonic phase): the derivative
+                # contribution of term i stays below 0.2 * 60 F0 / ncoeff
+                amp = 0.2 * 60 * f0v / (i * max(1.0, (span / 2.0)) ** (i - 1)) / ncoeff
+                mag = int(np.floor(np.log10(amp / 10))) + rng.choice([0, 0, -1, -2])
             coeffs.append(sci(rng, mag, fmt))
         entries.append(dict(tmid_str=tmid_str, span=span, rphase_str=rphase_str, f0_str=f0s, coeffs=coeffs))
     order = list(range(n))
@@ -140,12 +146,12 @@ def phase_exact(p):
 def run(ctx):
     rng = ctx.rng
     ctx.rule = ('generated tempo-style polyco texts: 1..40 entries, NCOEFF 1..15 (incl. not multiples of 3), E/e/D/d exponents, signed '
-                'coefficients, spans 5..360 min, F0 0.05..1000 Hz with F0*span/2 <= 2e6 cycles, reference phases up to 1e12, touching / '
+                'coefficients, spans 5..360 min, F0 0.05..1000 Hz with F0*span/2 <= 1e6 cycles, reference phases up to 1e12, touching / '
                 'overlapping / separated spans, shuffled entry order; scalar and array times inside spans (incl. edges, across entries) '
                 'and outside; f0 and derivatives; phasepol; time_at; malformed: unequal spans. distinct by (text parameters, times).')
     ctx.trusted = ['Coq 8.16.1 kernel (C08 theorems are axiom-free over Q); vm_compute',
                    'astropy Time (two-double) differences as exact rationals on the TAI scale; float64 Horner evaluation within 1e-8 cycles '
-                   'inside the sampled envelope F0*span/2 <= 2e6 cycles (assumption of the correspondence, not of the theorems)']
+                   'inside the sampled envelope F0*span/2 <= 1e6 cycles (assumption of the correspondence, not of the theorems)']
     ctx.assumptions = ['times closer than 20 microseconds to a span end are not used for the entry-selection comparison (searchsorted works on '
                        'float MJD, resolution ~1 us)', 'time_at (Newton iteration) is checked by the monitor only']
     built = ctx.build(['Props/C08.vo'])
